@@ -188,6 +188,42 @@ pub fn gen_tcp_stream(profile: &str, name: &str, rng: &mut SmallRng) -> Stream {
             opq += 1;
             frames.push(loud_probe(rng, opq));
         }
+        "tflip" => {
+            // one corrupted header byte in an otherwise complete request that would remove or overwrite a probe item:
+            // the request is invalid and must not be executed (C18); what was completely sent before it is
+            limit = 1024;
+            opq += 1;
+            let p = loud_probe(rng, opq);
+            let pk: Vec<u8> = p.body[8..10].to_vec();
+            frames.push(p);
+            if rng.gen_bool(0.5) {
+                // (nothing that removes or rewrites items: the probe stores are the only mutations of these streams)
+                opq += 1;
+                frames.push(if rng.gen_bool(0.5) { Frame::consistent(0x00, &[], &pk, &[], opq, 0) } else { Frame::consistent(0x0a, &[], &[], &[], opq, 0) });
+            }
+            opq += 1;
+            let which = rng.gen_range(0..4);
+            let mut f = match which {
+                0 | 1 => Frame::consistent(*[0x04u8, 0x14].choose(rng).unwrap(), &[], &pk, &[], opq, 0),
+                2 => Frame::consistent(0x01, &[0u8; 8], &pk, b"overwritten", opq, 0),
+                _ => Frame::consistent(0x0e, &[], &pk, b"+tail", opq, 0),
+            };
+            // (a longer body or a shorter key is a defect only where the command has no value to grow into)
+            match if which <= 1 { rng.gen_range(0..7) } else { rng.gen_range(2..7) } {
+                0 => f.body_length += *[1u32, 8, 24, 33].choose(rng).unwrap(),    // body length raised: the surplus is what follows (always there)
+                1 => f.key_length -= 1,                                          // key length lowered: another key, a stray byte
+                2 => f.key_length ^= 0x0100,                                     // a high bit
+                3 => f.extras_length ^= *[1u8, 4, 0x10].choose(rng).unwrap(),
+                4 => f.magic ^= *[1u8, 0x80, 0x01].choose(rng).unwrap(),
+                5 => f.data_type ^= *[1u8, 0x80].choose(rng).unwrap(),
+                _ => f.opcode ^= 0x40,
+            }
+            frames.push(f);
+            for _ in 0..rng.gen_range(1..=2) {
+                opq += 1;
+                frames.push(loud_probe(rng, opq));
+            }
+        }
         "tbig" => {
             // large limits: the oversized body is much larger than one socket read
             limit = *[65536u32, 1 << 20, 4 << 20].choose(rng).unwrap();
